@@ -375,8 +375,8 @@ fn run_case(payload: &str) -> String {
 /// The same replay against the REAL gossip manager (iroh endpoint bound to an OS-chosen local
 /// port, no peers): `real <flags> <label>*`.  The manager runs freely, i.e. it handles every
 /// message as soon as it is sent (`M` labels are ignored).  Output:
-/// `<thread>* | left=<number of GossipEvent::Left>`; a kept handle is `L` when publishing
-/// through it still succeeds 300 ms after the last step.
+/// `<thread>* | left=<number of GossipEvent::Left> | sub=<topic still registered for our node in the
+/// address book>`; a kept handle is `L` when publishing through it keeps succeeding.
 fn run_real(payload: &str) -> String {
     use p2panda_net::Endpoint;
     use p2panda_net::gossip::GossipEvent;
@@ -395,7 +395,7 @@ fn run_real(payload: &str) -> String {
         let events = gossip.events().await.map_err(|e| format!("{e:?}"))?;
         Ok::<_, String>((book, endpoint, gossip, events))
     });
-    let (_book, _endpoint, gossip, mut events) = match built {
+    let (book, endpoint, gossip, mut events) = match built {
         Ok(x) => x,
         Err(e) => return format!("SETUP {}", e.split(|c: char| !c.is_alphanumeric()).next().unwrap_or("")),
     };
@@ -492,7 +492,13 @@ fn run_real(payload: &str) -> String {
                 if ctl.errs[i].is_some() {
                     parts.push(format!("{p}:E"));
                 } else if let Some(h) = &ctl.kept[i] {
-                    let live = sh.rt.block_on(h.publish(vec![1u8])).is_ok();
+                    // a stopped session's listener still takes one message before it ends:
+                    // publish twice
+                    let live = sh.rt.block_on(async {
+                        let a = h.publish(vec![1u8]).await.is_ok();
+                        tokio::time::sleep(Duration::from_millis(200)).await;
+                        a && h.publish(vec![2u8]).await.is_ok()
+                    });
                     parts.push(format!("{p}:{}:{}", if live { 'L' } else { 'X' }, h.verif_guard_counter()));
                 } else if matches!(ctl.th[i], Th::Finished) {
                     parts.push(format!("{p}:d"));
@@ -500,7 +506,17 @@ fn run_real(payload: &str) -> String {
                     parts.push(format!("{p}:?"));
                 }
             }
-            format!("{} | left={}", parts.join(" "), left)
+            // the manager adds / removes the topic for our own node id on Subscribe / Unsubscribe
+            let sub = sh.rt.block_on(async {
+                match book.watch_node_topics(endpoint.node_id(), false).await {
+                    Ok(mut rx) => match rx.recv().await {
+                        Some(v) => if v.value.contains(&topic) { '1' } else { '0' },
+                        None => '?',
+                    },
+                    Err(_) => '?',
+                }
+            });
+            format!("{} | left={} | sub={}", parts.join(" "), left, sub)
         }
     };
     *EVENTS.lock().unwrap() = None;
